@@ -75,6 +75,65 @@ theorem fold_rules_exact (R : RuleSpec dirMode f ok sel key node) (l : List α)
       · intro k hk
         exact fr2 k (fun e he hse => hk e (by simp [he]) hse)
 
+/-- overlapping destinations: **the later rule wins** — a selected rule's destination holds its node at the end
+whenever no *later* selected rule of the list has the same destination -/
+theorem fold_rules_last_wins (R : RuleSpec dirMode f ok sel key node) (l : List α) (hok : ∀ e ∈ l, ok e)
+    (s : St) (hNL : NL s.fs) (hf : (l.foldl f s).failed = false) :
+    NL (l.foldl f s).fs ∧
+    (∀ pre e post, l = pre ++ e :: post → sel e = true → (∀ e' ∈ post, sel e' = true → key e' ≠ key e) →
+      (l.foldl f s).fs.get (key e) = some (node e)) ∧
+    (∀ k, (∀ e ∈ l, sel e = true → key e ≠ k) →
+      (l.foldl f s).fs.get k = s.fs.get k ∨ (s.fs.get k = none ∧ (l.foldl f s).fs.get k = some (.dir dirMode))) := by
+  induction l generalizing s with
+  | nil =>
+    refine ⟨hNL, ?_, fun k _ => Or.inl rfl⟩
+    intro pre e post h
+    cases pre <;> simp at h
+  | cons a t ih =>
+    simp only [List.foldl_cons] at hf ⊢
+    have hs1 : (f s a).failed = false := by
+      by_cases e : (f s a).failed = true
+      · rw [foldl_failed_sticky R t _ e] at hf; rw [hf] at e; cases e
+      · simpa using e
+    by_cases hsel : sel a = true
+    · obtain ⟨n1, g1, fr1⟩ := R.spec s a (hok a (by simp)) hsel hNL hs1
+      obtain ⟨n2, g2, fr2⟩ := ih (fun e he => hok e (by simp [he])) (f s a) n1 hf
+      refine ⟨n2, ?_, ?_⟩
+      · intro pre e post hl hse hlater
+        cases pre with
+        | nil =>
+          simp only [List.nil_append, List.cons.injEq] at hl
+          obtain ⟨rfl, rfl⟩ := hl
+          rcases fr2 (key a) (fun e' he' hse' => hlater e' he' hse') with h | ⟨h, _⟩
+          · rw [h, g1]
+          · rw [g1] at h; cases h
+        | cons b pre' =>
+          simp only [List.cons_append, List.cons.injEq] at hl
+          exact g2 pre' e post hl.2 hse hlater
+      · intro k hk
+        have hka : k ≠ key a := fun e => hk a (by simp) hsel e.symm
+        rcases fr2 k (fun e he hse => hk e (by simp [he]) hse) with h | ⟨h1, h2⟩
+        · rcases fr1 k hka with h' | ⟨_, h1', h2'⟩
+          · exact Or.inl (by rw [h, h'])
+          · exact Or.inr ⟨h1', by rw [h, h2']⟩
+        · rcases fr1 k hka with h' | ⟨_, _, h2'⟩
+          · exact Or.inr ⟨by rw [← h', h1], h2⟩
+          · rw [h2'] at h1; cases h1
+    · have hsel' : sel a = false := by simpa using hsel
+      rw [R.skip s a hsel'] at hf ⊢
+      obtain ⟨n2, g2, fr2⟩ := ih (fun e he => hok e (by simp [he])) s hNL hf
+      refine ⟨n2, ?_, ?_⟩
+      · intro pre e post hl hse hlater
+        cases pre with
+        | nil =>
+          simp only [List.nil_append, List.cons.injEq] at hl
+          rw [← hl.1, hsel'] at hse; cases hse
+        | cons b pre' =>
+          simp only [List.cons_append, List.cons.injEq] at hl
+          exact g2 pre' e post hl.2 hse hlater
+      · intro k hk
+        exact fr2 k (fun e he hse => hk e (by simp [he]) hse)
+
 /-- when every selected rule's destination already holds its node, running the rules changes nothing -/
 theorem fold_rules_fixed (R : RuleSpec dirMode f ok sel key node) (l : List α) (hok : ∀ e ∈ l, ok e)
     (s : St) (hNL : NL s.fs)
@@ -225,6 +284,61 @@ theorem ruleSpec_header : RuleSpec (andNot 0o777 cfg.procUmask) (installHeader c
         dsimp only at hf ⊢
         exact fileRule_spec cfg hdry honly hD hdest e hok _ od _ s
           ((hdest _ _ hdp).join_name (basename_noSep _) hok.1) hNL hf
+
+/-! ### file targets -/
+
+def targetNode (cfg : Cfg) (t : TargetEntry) : Node :=
+  match t.src with
+  | .file m d tt => .file (modeRule cfg t.mode m) d tt
+  | _ => .dir 0
+
+/-- destination key of a target: the output directory plus the file's basename -/
+def targetKey (cfg : Cfg) (t : TargetEntry) : Key :=
+  match destPath cfg t.outdir with
+  | some od => keyOf cfg.cwd (join od (basename t.fname))
+  | none => []
+
+def selTarget (cfg : Cfg) (t : TargetEntry) : Bool := shouldInstall cfg t.subproject t.tag
+
+/-- a target whose output is a regular file that exists -/
+def okTarget (t : TargetEntry) : Prop := basename t.fname ≠ dotdot ∧ ∃ m d tt, t.src = .file m d tt
+
+include hdry honly hD hdest in
+theorem ruleSpec_target : RuleSpec (andNot 0o777 cfg.procUmask) (installTarget cfg) okTarget (selTarget cfg)
+    (targetKey cfg) (targetNode cfg) where
+  skip := by intro s e h; unfold installTarget; simp only [selTarget] at h; simp [h]
+  failed := by intro s e h; unfold installTarget; simp [h]
+  spec := by
+    intro s t hok hsel hNL hf
+    obtain ⟨hb, m, d, tt, hsrc⟩ := hok
+    unfold installTarget at hf ⊢
+    unfold targetKey targetNode
+    simp only [selTarget] at hsel
+    by_cases hs : s.failed = true
+    · simp only [hs, if_true] at hf; cases hf
+    · simp only [hs, hsel, Bool.not_true, Bool.false_eq_true, if_false, hsrc] at hf ⊢
+      cases hdp : destPath cfg t.outdir with
+      | none => rw [hdp] at hf; simp [St.failed, St.fail] at hf
+      | some od =>
+        rw [hdp] at hf
+        dsimp only at hf ⊢
+        have hg : Good D (join od (basename t.fname)) := (hdest _ _ hdp).join_name (basename_noSep _) hb
+        have hk := hg.key_ne_nil cfg hD
+        by_cases hc : (doCopyfile cfg t.fname (.file m d tt) (join od (basename t.fname)) (some od) none s).1.failed = true
+        · simp [hc] at hf
+        · have hc' : (doCopyfile cfg t.fname (.file m d tt) (join od (basename t.fname)) (some od) none s).1.failed = false := by
+            simpa using hc
+          obtain ⟨h22, n1, h2, h3⟩ := doCopyfile_file_spec cfg hdry honly t.fname (join od (basename t.fname)) m d tt
+            (some od) none s hNL hk hc'
+          simp only [hc', h22, Bool.false_eq_true, if_false, if_true] at hf ⊢
+          obtain ⟨a, b, _⟩ := setMode_file_spec cfg hdry _ hk t.mode
+            { (doCopyfile cfg t.fname (.file m d tt) (join od (basename t.fname)) (some od) none s).1 with didInstall := true }
+            m d tt h2
+          refine ⟨?_, a, fun k hkk => by rw [b k hkk]; exact h3 k hkk⟩
+          intro k t' e'
+          by_cases hkk : k = keyOf cfg.cwd (join od (basename t.fname))
+          · rw [hkk, a] at e'; cases e'
+          · rw [b k hkk] at e'; exact n1 k t' e'
 
 end
 
